@@ -128,8 +128,6 @@ def gen(rng):
         else:
             ops.append([kind, k])
     case["ops"] = ops
-    # the documented usage (r0 not owned before a Dict call) cannot be assembled: kept as a small separate stream
-    case["own_r0"] = rng.random() >= 0.04
     return case
 
 
@@ -166,23 +164,15 @@ def build(case):
         for j in range(len(key)):
             setattr(self.tbl.key, f"m{j}", getattr(self, f"ik{j}"))
 
-    def own_r0(self):
-        # TheDict.lookup/update keep the caller's r1 in the lowest free register across the helper call: it must not
-        # be r0 (HashGlobalVar.get_address needs the opposite: an owned r0 is restored over the looked-up pointer)
-        if case.get("own_r0", True):
-            self.r0 = 0
-
     def program(self):
         for fl in (0, 1, 2):
             with self.sel == 1 + fl:
-                own_r0(self)
                 setkey(self)
                 for j in range(len(value)):
                     setattr(self.tbl.value, f"m{j}", getattr(self, f"iv{j}"))
                 self.tbl.update(UpdateFlags(fl))
                 self.ret = self.r0
         with self.sel == 4:
-            own_r0(self)
             setkey(self)
             with self.tbl.lookup() as (val, Else):
                 self.fnd = 1
@@ -191,7 +181,6 @@ def build(case):
             with Else:
                 self.fnd = 2
         with self.sel == 5:
-            own_r0(self)
             setkey(self)
             with self.tbl.lookup() as (val, Else):
                 self.fnd = 1
@@ -202,7 +191,6 @@ def build(case):
             with Else:
                 self.fnd = 2
         with self.sel == 6:
-            own_r0(self)
             for j in range(len(key)):
                 setattr(self.tbl.key, f"m{j}", ck[j])
             for j in range(len(value)):
@@ -471,8 +459,8 @@ def run_case(ctx, case, real_kernel=False):
     sh.load()
     if lres == "asm-error":
         if ctx is not None:
-            ctx.require(False, "the program with Dict update()/lookup() could not be generated (AssembleError)", case, lres,
-                        None if case.get("own_r0", True) else "dict-call-r0")
+            ctx.require(False, "the program with Dict update()/lookup() and hash variable access could not be generated (AssembleError)",
+                        case, lres, "not-assembled")
         return outs, imp
     if ctx is not None and lres != "ok":
         x = any(f == "x" and fl for f, d, fl in case["vars"])
